@@ -44,13 +44,14 @@ pub async fn audit_verify<TC: Configuration>(
     for i in 0..hashes.len() - 1 {
         let start_hash = hashes[i];
         let end_hash = hashes[i + 1];
-        verify_consecutive_append_only::<TC>(
-            &proof.proofs[i],
-            start_hash,
-            end_hash,
-            proof.epochs[i] + 1,
-        )
-        .await?;
+        let end_epoch = proof.epochs[i].checked_add(1).ok_or_else(|| {
+            AkdError::AuditErr(AuditorError::VerifyAuditProof(format!(
+                "The epoch {} of the proof has no successor",
+                proof.epochs[i]
+            )))
+        })?;
+        verify_consecutive_append_only::<TC>(&proof.proofs[i], start_hash, end_hash, end_epoch)
+            .await?;
     }
     Ok(())
 }
@@ -68,6 +69,11 @@ pub async fn verify_consecutive_append_only<TC: Configuration>(
     end_hash: Digest,
     end_epoch: u64,
 ) -> Result<(), AkdError> {
+    let start_epoch = end_epoch.checked_sub(1).ok_or_else(|| {
+        AkdError::AuditErr(AuditorError::VerifyAuditProof(
+            "The end epoch of an append-only proof cannot be 0".to_string(),
+        ))
+    })?;
     verify_prefix_free(&proof.unchanged_nodes, &proof.inserted)?;
     verify_append_only_hash::<TC>(proof.unchanged_nodes.clone(), start_hash, None).await?;
 
@@ -78,7 +84,7 @@ pub async fn verify_consecutive_append_only<TC: Configuration>(
         y
     }));
 
-    verify_append_only_hash::<TC>(unchanged_with_inserted_nodes, end_hash, Some(end_epoch - 1))
+    verify_append_only_hash::<TC>(unchanged_with_inserted_nodes, end_hash, Some(start_epoch))
         .await?;
     Ok(())
 }
